@@ -203,6 +203,9 @@ class MemoryBank:
             else:
                 raw_data.append(None)
         if use_latch and self.has_latch:
+            # Reading memory locations clears writeEnableState, so it
+            # must be set again or the write to the lock byte is ignored
+            yield _EnableWriteMemory(addr)
             yield _DTR0(addr, 2)
             yield _WriteMemoryLocationNoReply(addr, 0xFF)
         result = {}
